@@ -1,2 +1,162 @@
-(* placeholder during development *)
-From SDC Require Import Wsd.Match Wsd.Table Wsd.Gen_Match.
+(* C14 -- WS-Discovery answers and records exactly what its matching rules prescribe.
+   Property theorems only; each is closed by [exact] of a lemma proved in Wsd/Match_Proofs.v,
+   Wsd/Table_Proofs.v or Wsd/Udp_Proofs.v.  Strings are UTF-8 byte lists, urlsplit / unquote are the
+   byte-level urllib.parse model (Location/Quote.v); [match_consts] (MatchBy URIs) and [known_ids_cap]
+   are regenerated from the source on every run.  fixed = true is the code with the proposed repair
+   (a ValueError of urlsplit means "no match"), fixed = false the code as it is. *)
+From Coq Require Import List NArith ZArith Bool Lia.
+From SDC Require Import Location.Quote Location.Loc Wsd.Uri Wsd.Match Wsd.Match_Proofs
+  Wsd.Udp Wsd.Udp_Proofs Wsd.Gen_Params Wsd.Table Wsd.Table_Proofs Wsd.Gen_Match.
+Import ListNotations.
+
+(* ---------------------------------------------------------------- scope matching *)
+(* RFC 3986 rule on URI records: for well-formed URIs (any scheme case, optional authority, any
+   segments incl. empty ones, trailing slash, %-escapes of any case, optional query / fragment) rendered
+   to text, match_scope answers True exactly when scheme and authority agree case-insensitively and
+   the percent-decoded segments of the first are a segment-wise prefix of those of the second; query
+   and fragment play no role.  Holds for the code as it is and for the repaired code. *)
+Theorem C14_rfc3986_spec : forall fixed (badf : bytes -> bool) mb u1 u2,
+  wf_uri u1 = true -> wf_uri u2 = true -> is_rfc match_consts mb = true ->
+  (match_scope match_consts fixed (fun s => urlsplit (badf s) s) mb (render u1) (render u2) = Ret true <->
+   lower_s (u_scheme u1) = lower_s (u_scheme u2) /\
+   lower_s (opt_val (u_auth u1)) = lower_s (opt_val (u_auth u2)) /\
+   is_prefix (decoded_parts u1) (decoded_parts u2)).
+Proof. exact (rfc_on_records match_consts). Qed.
+Print Assumptions C14_rfc3986_spec.
+
+(* the same rule on arbitrary texts, in terms of the components urlsplit finds (any urlsplit) *)
+Theorem C14_rfc3986_text : forall split fixed my other,
+  match_rfc fixed split my other = Ret true <-> rfc_spec split my other.
+Proof. exact match_rfc_spec. Qed.
+Print Assumptions C14_rfc3986_text.
+
+Theorem C14_match_reflexive : forall split fixed a,
+  split a <> SplitErr -> match_rfc fixed split a a = Ret true.
+Proof. exact match_rfc_refl. Qed.
+Print Assumptions C14_match_reflexive.
+
+Theorem C14_match_transitive : forall split fixed a b c,
+  match_rfc fixed split a b = Ret true -> match_rfc fixed split b c = Ret true ->
+  match_rfc fixed split a c = Ret true.
+Proof. exact match_rfc_trans. Qed.
+Print Assumptions C14_match_transitive.
+
+(* which MatchBy values select which rule (constants regenerated from the source): absent, empty,
+   rfc3986, ldap and uuid all use the RFC 3986 rule; strcmp0 is its own rule *)
+Theorem C14_matchby_values :
+  is_rfc match_consts None = true /\ is_rfc match_consts (Some []) = true /\
+  is_rfc match_consts (Some (m_uri match_consts)) = true /\
+  is_rfc match_consts (Some (m_ldap match_consts)) = true /\
+  is_rfc match_consts (Some (m_uuid match_consts)) = true /\
+  is_rfc match_consts (Some (m_strcmp match_consts)) = false /\
+  is_strcmp match_consts (Some (m_strcmp match_consts)) = true.
+Proof. vm_compute. repeat split; reflexivity. Qed.
+Print Assumptions C14_matchby_values.
+
+(* string matching is exact *)
+Theorem C14_strcmp_exact : forall fixed split mb a b,
+  is_rfc match_consts mb = false -> is_strcmp match_consts mb = true ->
+  match_scope match_consts fixed split mb a b = Ret (bytes_eqb a b) /\ (bytes_eqb a b = true <-> a = b).
+Proof. intros. split; [now apply match_scope_strcmp|apply Location.Proofs.bytes_eqb_eq]. Qed.
+Print Assumptions C14_strcmp_exact.
+
+(* any other MatchBy value matches nothing *)
+Theorem C14_unknown_matchby : forall split fixed mb a b,
+  is_rfc match_consts mb = false -> is_strcmp match_consts mb = false ->
+  match_scope match_consts fixed split mb a b = Ret false.
+Proof. exact (match_scope_other match_consts). Qed.
+Print Assumptions C14_unknown_matchby.
+
+(* repaired code: match_scope always returns a verdict, whatever urlsplit does with the two texts *)
+Theorem C14_match_total : forall split mb a b,
+  exists r, match_scope match_consts true split mb a b = Ret r.
+Proof. exact (match_scope_total match_consts). Qed.
+Print Assumptions C14_match_total.
+
+(* the code as it is raises on a scope whose authority urlsplit rejects ("http://[x/a") *)
+Theorem C14_match_total_unpatched_refuted : exists a b,
+  match_scope match_consts false (urlsplit false) None a b = Raise.
+Proof.
+  exists [104; 116; 116; 112; 58; 47; 47; 91; 120; 47; 97]%N, [104; 116; 116; 112; 58; 47; 47; 104; 47; 97]%N.
+  vm_compute. reflexivity.
+Qed.
+Print Assumptions C14_match_total_unpatched_refuted.
+
+(* ---------------------------------------------------------------- Probe / Resolve *)
+(* a Probe is answered with exactly the published services that offer all requested types and match
+   all requested scopes under the requested rule, one ProbeMatch each, in publication order; nothing
+   else changes (repaired code) *)
+Theorem C14_probe_exact : forall split d types scopes,
+  handle match_consts true split d (MProbe types scopes) =
+  (d, map OProbeMatch (filter (matchesb match_consts true split types scopes) (t_values (local d)))).
+Proof. exact (probe_exact match_consts). Qed.
+Print Assumptions C14_probe_exact.
+
+Theorem C14_probe_match_only_for_probe : forall fixed split d m s,
+  In (OProbeMatch s) (snd (handle match_consts fixed split d m)) -> exists types scopes, m = MProbe types scopes.
+Proof. exact (probe_match_only_for_probe match_consts). Qed.
+Print Assumptions C14_probe_match_only_for_probe.
+
+(* a ResolveMatch leaves the node only in answer to a Resolve for a published endpoint reference, and
+   describes that service; and every such Resolve is answered *)
+Theorem C14_resolve_only_published : forall fixed split d m s,
+  In (OResolveMatch s) (snd (handle match_consts fixed split d m)) ->
+  exists epr, m = MResolve epr /\ t_get epr (local d) = Some s.
+Proof. exact (resolve_only_published match_consts). Qed.
+Print Assumptions C14_resolve_only_published.
+
+Theorem C14_resolve_published_answered : forall fixed split d epr s,
+  t_get epr (local d) = Some s -> handle match_consts fixed split d (MResolve epr) = (d, [OResolveMatch s]).
+Proof. exact (resolve_published_answered match_consts). Qed.
+Print Assumptions C14_resolve_published_answered.
+
+(* ---------------------------------------------------------------- the table of discovered services *)
+(* after ANY sequence of received messages (Hello / ProbeMatches / ResolveMatches / Bye / Probe /
+   Resolve / unknown, with or without AppSequence, any versions, any order, duplicates), for every
+   non-empty endpoint reference: the table has an entry iff there was an announcement since the last
+   Bye, and the entry's metadata version is the highest one announced since then *)
+Theorem C14_table_max_version : forall fixed split ms epr, epr <> []%list ->
+  table_entry_ok epr (rev (flat_map tevs_of ms))
+                 (t_get epr (remote (handle_all match_consts fixed split (mkD [] []) ms))).
+Proof. exact (table_after_messages match_consts). Qed.
+Print Assumptions C14_table_max_version.
+
+(* the empty endpoint reference is never recorded *)
+Theorem C14_no_empty_epr : forall rh, t_get [] (table_of rh) = None.
+Proof. exact table_no_empty_epr. Qed.
+Print Assumptions C14_no_empty_epr.
+
+(* ---------------------------------------------------------------- message ids (bounded memory of Wsd/Udp.v) *)
+Lemma cap_pos : (0 < known_ids_cap)%nat.
+Proof. unfold known_ids_cap. lia. Qed.
+
+(* an id that was acted on is not acted on again while it is among the remembered ids, i.e. as long as
+   fewer than cap further ids were registered (the bound is part of the claim) *)
+Theorem C14_dedup : forall k id es,
+  is_known k id = false ->
+  (count_inserts known_ids_cap (remember known_ids_cap k id) es < known_ids_cap)%nat ->
+  dstep known_ids_cap k (EvIn id) = (remember known_ids_cap k id, true) /\
+  snd (dstep known_ids_cap (fst (drun known_ids_cap (remember known_ids_cap k id) es)) (EvIn id)) = false.
+Proof. exact (acted_at_most_once known_ids_cap cap_pos). Qed.
+Print Assumptions C14_dedup.
+
+(* in the node model a datagram with a remembered id changes nothing and sends nothing *)
+Theorem C14_known_id_not_acted : forall fixed split cap n mid m,
+  is_known (kn_ids n) mid = true -> deliver match_consts fixed split cap n mid m = (n, []).
+Proof. exact (known_id_not_acted match_consts). Qed.
+Print Assumptions C14_known_id_not_acted.
+
+(* ---------------------------------------------------------------- non-vacuity *)
+(* "x://Host/a%2Fb/" against "X://host/a%2fb//c?q#f": well-formed, matched; and a table history *)
+Example C14_nonvacuous :
+  let u1 := mkUri [120]%N (Some [72; 111; 115; 116]%N) [[]; [97; 37; 50; 70; 98]; []]%N None None in
+  let u2 := mkUri [88]%N (Some [104; 111; 115; 116]%N) [[]; [97; 37; 50; 102; 98]; []; [99]]%N (Some [113]%N) (Some [102]%N) in
+  wf_uri u1 = true /\ wf_uri u2 = true /\
+  match_scope match_consts false (urlsplit false) None (render u1) (render u2) = Ret true /\
+  match_scope match_consts false (urlsplit false) None (render u2) (render u1) = Ret false /\
+  (let s v := mkService [114]%N [] None [] v 1 in
+   map (fun kv => s_mdv (snd kv))
+       (remote (handle_all match_consts false (urlsplit false) (mkD [] [])
+                  [MHello (Some 1%Z) (s 2%Z); MHello (Some 1%Z) (s 1%Z); MBye [114]%N; MResolveMatches (Some 1%Z) (Some (s 1%Z));
+                   MProbeMatches (Some 1%Z) [s 3%Z; s 2%Z]])) = [3%Z]).
+Proof. vm_compute. repeat split; reflexivity. Qed.
